@@ -46,3 +46,19 @@ let hex_of_bytes_strict (l : z list) : string =
 let b2i b = if b then 1 else 0
 let split_ws (s : string) : string list =
   List.filter (fun x -> x <> "") (String.split_on_char ' ' s)
+
+(* 64-bit values (nanosecond durations, wrapped products) via Int64 *)
+let rec pos_of_int64 (n : int64) : positive =
+  if n = 1L then XH
+  else if Int64.logand n 1L = 0L then XO (pos_of_int64 (Int64.shift_right_logical n 1))
+  else XI (pos_of_int64 (Int64.shift_right_logical n 1))
+let z_of_int64 (n : int64) : z =
+  if n = 0L then Z0 else if n > 0L then Zpos (pos_of_int64 n)
+  else if n = Int64.min_int then Zneg (XO (pos_of_int64 (Int64.shift_right_logical n 1)))
+  else Zneg (pos_of_int64 (Int64.neg n))
+let rec int64_of_pos (p : positive) : int64 =
+  match p with XH -> 1L | XO q -> Int64.mul 2L (int64_of_pos q) | XI q -> Int64.add (Int64.mul 2L (int64_of_pos q)) 1L
+let int64_of_z (x : z) : int64 =
+  match x with Z0 -> 0L | Zpos p -> int64_of_pos p | Zneg p -> Int64.neg (int64_of_pos p)
+let z_of_string (s : string) : z = z_of_int64 (Int64.of_string s)
+let string_of_z (x : z) : string = Int64.to_string (int64_of_z x)
